@@ -679,10 +679,15 @@ class SyncObj(object):
                         logger.exception('replicated method raised an exception')
                         res = e
                     for subscribeTermID, callback in subscribers:
-                        if subscribeTermID == currentTermID:
-                            callback(res, FAIL_REASON.SUCCESS)
-                        else:
-                            callback(None, FAIL_REASON.DISCARDED)
+                        # An exception out of the application's callback must not leave the entry
+                        # half-applied: the next tick would execute the command a second time.
+                        try:
+                            if subscribeTermID == currentTermID:
+                                callback(res, FAIL_REASON.SUCCESS)
+                            else:
+                                callback(None, FAIL_REASON.DISCARDED)
+                        except Exception:
+                            logger.exception('callback raised an exception')
 
                     self.__raftLastApplied += 1
                 except SyncObjExceptionWrongVer as e:
@@ -1229,9 +1234,12 @@ class SyncObj(object):
             callback(oldState, newState)
 
     def __onLeaderChanged(self):
-        for id in sorted(self.__commandsWaitingReply):
-            self.__commandsWaitingReply[id](None, FAIL_REASON.LEADER_CHANGED)
-        self.__commandsWaitingReply = {}
+        waitingReply, self.__commandsWaitingReply = self.__commandsWaitingReply, {}
+        for id in sorted(waitingReply):
+            try:
+                waitingReply[id](None, FAIL_REASON.LEADER_CHANGED)
+            except Exception:
+                logger.exception('callback raised an exception')
 
     def __sendAppendEntries(self):
         self.__newAppendEntriesTime = monotonicTime() + self.__conf.appendEntriesPeriod
